@@ -22,7 +22,7 @@ TECH = {
  'C09': 'static analysis: pattern op-code producers versus stepPattern/getTargetData switch labels; single NodeTester rule; CFG loop-exit rule for the ancestor search; type-split rule for number-valued predicates on both sides; step-type value sets reaching the node tester; kind guards of pattern steps; interpretation of the pattern parser on bounded token sequences against a reference recognizer for the XSLT 1.0 pattern grammar',
  'C10': 'static analysis: exhaustive switch evaluation of match-score constants; finite-domain interpretation of getTargetData and of the lookup-list builders on all small inputs; structural agreement of the two findTemplate branches; interpretation of the construction of the built-in rules over an object model of stylesheet elements',
  'C11': 'static analysis: sibling dispatch agreement across the six executeMore switches (labels, kernels, canonical conversions); append protocol of the string-result overloads; wrapper rule for the typed helper families; body equality modulo the sink for the 50 string / character-events overload pairs of the conversion library',
- 'C12': 'static analysis: CFG must-pass-through of the order flag in axis functions; who-may-call for raw addNode; dominating-justification rule for whole-range transfers in the ordered merge; interpretation of the ordered insert (binary and linear search, predicates) on all bounded insertion sequences over two documents',
+ 'C12': 'static analysis: CFG must-pass-through of the order flag in axis functions; who-may-call for raw addNode; dominating-justification rule for whole-range transfers in the ordered merge; interpretation of the ordered insert (binary and linear search, predicates) on all bounded insertion sequences over two documents, and of the structural document-order comparison on all node pairs of small trees',
  'C13': 'static analysis: who-may-call for strip-unaware text access; CFG guard dominance of text sinks; interpretation of the declaration ordering; return-value provenance of the strip decision chain',
  'C16': 'static analysis: stable_sort call rule + finite-domain interpretation of the key comparator',
  'C19': 'static analysis: destructor-reachable allocation over the call graph, placement-new pairing, manager agreement, new/delete confinement, ownership analysis of pointer containers (removal and keyed-store sites)',
